@@ -369,6 +369,7 @@ func init() {
 			"argument type checking at call time.",
 		Rules: []func(*Ctx){
 			func(c *Ctx) { c.ruleTypeID("R-TYPEID") },
+			func(c *Ctx) { c.ruleAccept("R-ACCEPT"); c.R.Floor("R-ACCEPT", 2) },
 			func(c *Ctx) { c.ruleHandlerKind("R-REFLECT"); c.R.Floor("R-REFLECT", 4) },
 			func(c *Ctx) { c.ruleFunctionCall("R-CALL") },
 		},
